@@ -88,12 +88,12 @@ deriving DecidableEq, Repr
 structure LTrack where
   closed : List (List Char × List (List Char)) := []   -- finished layers with their supplied identifiers, in order
   opened : Option (List Char) := none
-deriving Repr
+deriving DecidableEq, Repr
 
 inductive LStep
   | ok (t : LTrack)
   | reject            -- the property demands a configuration error at this call
-  | dontCare          -- the property does not constrain this call (empty module list, regex equal to a module name)
+  | dontCare          -- the property does not constrain this call (regex textually equal to a module name given elsewhere)
 
 def LTrack.assigned (t : LTrack) : List (List Char) := t.closed.flatMap (·.2)
 
@@ -107,7 +107,9 @@ def LTrack.step (t : LTrack) : LCall → LStep
     match t.opened with
     | none => .reject
     | some n =>
-      if ms.isEmpty then .dontCare
+      -- an EMPTY list supplies no modules: "a layer must receive its modules before the next layer is opened",
+      -- so the layer stays open (a following `layer` call is rejected, a following modules/regex call fills it)
+      if ms.isEmpty then .ok t
       else if ms.any t.assigned.contains then .reject
       else .ok { closed := t.closed ++ [(n, ms)], opened := none }
   | .regex r =>
@@ -121,7 +123,7 @@ inductive LOutcome
   | accepted (t : LTrack)
   | rejectedAt (i : Nat)
   | unspecified
-deriving Repr
+deriving DecidableEq, Repr
 
 def classifyLArchFrom (t : LTrack) (i : Nat) : List LCall → LOutcome
   | [] => .accepted t
